@@ -104,7 +104,7 @@ def strategy(spec, ctx):
 
 def shards(tier):
     n = 16 if tier == 'quick' else 64
-    return [{'examples': 500 if tier == 'quick' else 3000} for _ in range(n)]
+    return [{'examples': 1000 if tier == 'quick' else 8000} for _ in range(n)]
 
 
 def run_shard(spec, ctx):
